@@ -140,6 +140,7 @@ func plan(tier string, seed int64) []driver.Case {
 				P: map[string]string{"kind": "conc", "entry": e.Name, "scripts": key(t), "yield": fmt.Sprint(rng.Intn(3)), "concurrent": "1"}})
 		}
 	}
+	cases = append(cases, spinCases(tier)...)
 	for _, pl := range parkPlans {
 		cases = append(cases, driver.Case{ID: "park/" + pl.name, P: map[string]string{"kind": "park", "plan": pl.name}})
 	}
@@ -721,6 +722,9 @@ func runCase(c driver.Case) driver.Result {
 	}
 	if c.Get("kind") == "conc" {
 		return runConc(c)
+	}
+	if c.Get("kind") == "spin" {
+		return runSpin(c)
 	}
 	return runSeq(c)
 }
